@@ -22,7 +22,7 @@ for d in sorted(p for p in S.iterdir() if p.is_dir()):
     summ = (meta.get("summary", "") or "").replace("\n", " ").replace("|", "/")
     summ = summ[:230] + ("..." if len(summ) > 230 else "")
     rows.append((d.name, meta.get("property", d.name[:3]), summ, ", ".join(caught) or "-", ", ".join(m for m in missed) or "-"))
-out = ["### 0.6 Seeded changes and the checks that catch them",
+out = ["### 0.7 Seeded changes and the checks that catch them",
        "",
        "Eighty changes to TorchJD were produced by independent sub-agents (two waves of two per property; each agent saw",
        "only the text of one property and its own scratch worktree of /repo, nothing from /verif), each with a",
